@@ -691,6 +691,51 @@ def build(arg):
     return T
 """
 
+# std helper families that build lookup tables / could memoise per process; the twin letters differ in one parameter
+MODULES["popcnt_set"] = HEADER + """
+class T(Entity):
+    v3 = Port.input(BitVector[3])
+    v7 = Port.input(BitVector[7])
+    pos = Port.input(Unsigned[2])
+    c3 = Port.output(Unsigned[4])
+    c7 = Port.output(Unsigned[4])
+    hot = Port.output(BitVector[4])
+    ish = Port.output(Bit)
+
+    def architecture(self):
+        @std.concurrent
+        def logic():
+            self.c3 <<= std.count_set_bits(self.v3)
+            self.c7 <<= std.count_set_bits(self.v7)
+            self.hot <<= std.one_hot(4, self.pos)
+            self.ish <<= std.is_one_hot(self.v3)
+
+def build(arg):
+    return T
+"""
+
+MODULES["popcnt_clear"] = HEADER + """
+class T(Entity):
+    v3 = Port.input(BitVector[3])
+    v7 = Port.input(BitVector[7])
+    pos = Port.input(Unsigned[2])
+    c3 = Port.output(Unsigned[4])
+    c7 = Port.output(Unsigned[4])
+    hot = Port.output(BitVector[6])
+    ish = Port.output(Bit)
+
+    def architecture(self):
+        @std.concurrent
+        def logic():
+            self.c3 <<= std.count_clear_bits(self.v3)
+            self.c7 <<= std.count_clear_bits(self.v7)
+            self.hot <<= std.one_hot(6, self.pos)
+            self.ish <<= std.is_one_hot(self.v3)
+
+def build(arg):
+    return T
+"""
+
 # names that collide (case-insensitively, with reserved words, with each other across scopes)
 MODULES["names"] = HEADER + """
 class T(Entity):
@@ -1044,6 +1089,8 @@ LETTERS: dict[str, tuple] = {
     "base_a": ("base", "a", "accept", "derived from a shared base class declaring the ports; connects the inherited default=True output to a sub-entity"),
     "base_b": ("base", "b", "accept", "other design derived from the same base class"),
     "portinit": ("portinit", None, "accept", "Signals initialised from a port's Python value (sub-entity input, assigned output)"),
+    "popcnt_set": ("popcnt_set", None, "accept", "std.count_set_bits on widths 3 and 7, std.one_hot(4), std.is_one_hot"),
+    "popcnt_clear": ("popcnt_clear", None, "accept", "std.count_clear_bits on the same widths, std.one_hot(6), std.is_one_hot"),
     "names": ("names", None, "accept", "colliding / reserved / case-different names"),
     "exitcoro": ("exitcoro", None, "accept", "sub-entities with coroutines + cohdl.always, cohdl.on_block_exit handlers"),
     "rej_dyn": ("dyn", "fail", "reject", "same class as dyn_a/dyn_b: adds a dynamic port, then architecture() raises"),
